@@ -37,7 +37,9 @@ FILLS = [("zero", 0), ("ff", 0)] + [("bound", s) for s in range(1, 7)] + [("hash
 GROUPS = [("ET", "eco_mode_1", "v1", 47515, 4, "3000300000640000"), ("ET", "eco_mode_1", "v2", 47547, 6, "0000173bff7fffec00640000"),
           ("ET", "peak_shaving_mode", "v2", 47589, 6, "0000173bfc7f006400640000"), ("ET", "time", "ts", 45200, 3, "170511100b0c"),
           ("DT", "time", "ts", 40313, 3, "170511100b0c"), ("ES", "eco_mode_1", "v1aa", 1793, 4, "3000300000640000"),
-          ("ES", "eco_mode_1", "v2es", 47547, 6, "0000173bff7fffec00640000")]
+          ("ES", "eco_mode_1", "v2es", 47547, 6, "0000173bff7fffec00640000"),
+          # a group of the 745-platform eco type (power in 0.1 %): the valid range of the power word depends on the type byte
+          ("ET", "eco_mode_1", "v2", 47547, 6, "0000173bf97ffe0c00640fff")]
 VALUES_PER_CASE = 256
 GROUP_VALUES = {"quick": 4096, "thorough": 65536}
 REPS = {"quick": 1, "thorough": 8}
@@ -87,6 +89,13 @@ def make_case(tier, seed, index):
     total = GROUP_VALUES[tier]
     mult = 1 if total == 65536 else 40503
     vals = [((chunk * VALUES_PER_CASE + i) * mult + seed * 7919) & 0xFFFF for i in range(VALUES_PER_CASE)]
+    if total != 65536 and chunk == 1:
+        # ... and the neighbourhood of every range boundary a signed word can have in these groups
+        edge = []
+        for b in (0, 100, 1000, 23, 59, 48, 127, 255, 0x0FFF, 0x1000, 0x7FFF, 0x8000):
+            for dlt in range(-10, 11):
+                edge += [(b + dlt) & 0xFFFF, (-b + dlt) & 0xFFFF]
+        vals = sorted(set(vals[:64] + edge))
     if total != 65536 and chunk == 0:
         # always include every value of the high and the low byte with the other byte at typical values
         vals = sorted(set(vals[:64] + [(b << 8) | lo for b in range(256) for lo in (0x00, 0x7F)][:512]))
